@@ -13,7 +13,8 @@
  *        "the emitted byte at position g_wk is g_wv" for the symbolic position g_wk, and -- the view of an independent
  *        decoder -- the header fields of a Windows bitmap decoded from the first 14+40(+16) emitted bytes at the offsets
  *        the BMP format defines (little-endian numerals), when C06_DECODE_BMP_HEADER is defined.
- *  C06_malloc_unique(size)     phosg::malloc_unique (src/Strings.cc) = malloc; the unique_ptr deleter is dropped (no leak reasoning).
+ *  C06_MAP_AT(table, key)     std::unordered_map::at on a map built from a braced list of 4 pairs (the BI_BITFIELDS mask table).
+ *  C06_malloc_unique(size)     phosg::malloc_unique (src/Strings.cc) = malloc, ASSUMED to succeed; the unique_ptr deleter is dropped (no leak reasoning).
  */
 #ifndef C06_IO_H
 #define C06_IO_H
@@ -52,7 +53,25 @@ static inline int C06_fseek_cur(FILE* f, size_t n) {
   return 0;
 }
 
-static inline void* C06_malloc_unique(size_t size) { return malloc(size); }
+static inline void* C06_malloc_unique(size_t size) {
+  void* p = malloc(size);
+  __CPROVER_assume(p != 0); /* allocation succeeds (phosg::malloc_unique does not check; out-of-memory behaviour is not decided here) */
+  return p;
+}
+
+/* std::unordered_map<uint32_t, size_t> built from a braced list of 4 pairs, and its .at(): the mapped value of the first
+ * entry with that key, std::out_of_range if there is none (keys of the list are distinct in the source) */
+typedef struct { uint32_t k; size_t v; } C06_kv;
+#define C06_MAP_AT(m, key) C06_map_at4(m, sizeof(m) / sizeof(m[0]), key)
+static inline size_t C06_map_at4(const C06_kv* m, size_t n, uint32_t key) {
+  __CPROVER_assert(n == 4, "mask table has 4 entries");
+  if (m[0].k == key) return m[0].v;
+  if (m[1].k == key) return m[1].v;
+  if (m[2].k == key) return m[2].v;
+  if (m[3].k == key) return m[3].v;
+  verif_exc = EXC_out_of_range;
+  return 0;
+}
 
 /* ---- output stream ---- */
 size_t g_wpos;       /* bytes emitted so far */
